@@ -2832,7 +2832,7 @@ class ChannelManager:
                 True,
             )
             connection_channels[source_cid] = channel
-            le_connection_channels[source_cid] = channel
+            le_connection_channels[destination_cid] = channel
             server.on_connection(channel)
 
         # Respond
